@@ -1,3 +1,98 @@
-(* C09 - placeholder while the invariant is built *)
-From Tramp Require Import Model.Base Model.Sys.
-Theorem C09_placeholder : True. Proof. exact I. Qed.
+(* C09 — no crash point or failed write leaves a payment hash permanently unpayable.
+
+   "After a crash at any point, or any single failed or lost datastore write, a later fully funded set of HTLCs for the
+    same invoice is still either paid and settled, or settled from the recorded preimage. No payment hash becomes
+    permanently failing because of the state an interrupted run left behind."
+
+   Two halves.
+   (1) WHICH images an interrupted run can leave: [C09_crash_image_is_a_start_image] — after ANY history (crash at any
+       point, any number of rejected / applied-but-error writes, any interleaving) the durable node state satisfies
+       [node_ok] again, so every theorem about histories from a start image (C02, C05, C06, C08) holds for the next run.
+   (2) FROM EVERY such image (quantified over ALL [node_ok] nodes, not only the reachable ones — in particular the D4
+       image "Pending without attempt record"), with no part still pending, an explicit cooperative schedule (no fault,
+       the recipient accepts) brings a fully funded set to a settle: from the record (Succeeded), from the completed
+       interrupted attempt, or by a new payment after mark_failed. The one exception is what C11 demands: an interrupted
+       attempt OLDER than the MPP timeout makes the replayed set fail once — after which the record is Free
+       ([C09_aged_fails_once_then_free]) and the NEXT funded set is paid ([C09_aged_next_set_is_paid]).
+   These are existence-of-a-run (liveness under a cooperative environment) theorems, proved by symbolic execution of
+   the model over an arbitrary node (arbitrary attempt records, arbitrary list of failed/complete parts).
+   PARTIAL: the schedule is one cooperative schedule, not every fair one; "no part pending" (the probe comes after the
+   history has quiesced) is a hypothesis; attempt ids are assumed fresh (they are nanosecond timestamps in the code). *)
+From Tramp Require Import Model.Base Model.Fee Model.Classify Model.Node Model.Provider Model.ProviderSys Model.Sys.
+From Tramp Require Import Proofs.SysBasics Proofs.SysShape Proofs.SysTheorems Proofs.SysReach Proofs.SysCalls Proofs.SysNode Proofs.SysSafety Proofs.SysRecover.
+
+Theorem C09_crash_image_is_a_start_image : forall c n t0 h0 a0 evs,
+  node_ok n -> hist_wf c (sys_start n t0 h0 a0) evs ->
+  node_ok (nd (fst (step c (after c n t0 h0 a0 evs) EvCrash))).
+Proof. intros c n t0 h0 a0 evs Hn Hwf. exact (crash_image_ok c _ (after_wreach c n t0 h0 a0 evs Hn Hwf)). Qed.
+
+Theorem C09_never_wedged : forall c n t0 h0 a0 h (p : list N),
+  funded c h -> mpp_ms c <> 0 -> node_ok n -> (forall i, nth_error (parts n) i <> Some PPend) ->
+  mem_att a0 (atts n) = false -> (forall a t g, ds n = Some (DPending a t, g) -> a0 <> a) ->
+  exists evs,
+    (exists p', In [OResp (hid h) (Resolve p')] (map resps (snd (run c (sys_start n t0 h0 a0) evs)))) \/
+    (In [OResp (hid h) r_tramp_fail] (map resps (snd (run c (sys_start n t0 h0 a0) evs))) /\
+     free_view (ds (nd (fst (run c (sys_start n t0 h0 a0) evs)))) /\ parts (nd (fst (run c (sys_start n t0 h0 a0) evs))) = parts n).
+Proof. exact never_wedged. Qed.
+
+(* the cases, each with its schedule *)
+Theorem C09_free_image_pays : forall c n t0 h0 a0 h p,
+  funded c h -> mpp_ms c <> 0 -> free_view (ds n) -> mem_att a0 (atts n) = false ->
+  In [OResp (hid h) (Resolve p)] (map resps (snd (run c (sys_start n t0 h0 a0) (pay_schedule h (length (parts n)) p)))).
+Proof. exact recover_free. Qed.
+
+Theorem C09_succeeded_image_settles_from_record : forall c n t0 h0 a0 h pr g,
+  funded c h -> ds n = Some (DSucc pr, g) ->
+  In [OResp (hid h) (Resolve pr)] (map resps (snd (run c (sys_start n t0 h0 a0) [EvHtlc h; EvProcess 0 NoFault; EvDeliver 0 true]))).
+Proof. exact recover_succ. Qed.
+
+Theorem C09_interrupted_completed_settles : forall c n t0 h0 a0 h a t g pr rest,
+  funded c h -> ds n = Some (DPending a t, g) -> pend_ids 0 (parts n) = [] -> done_pres (parts n) = pr :: rest ->
+  In [OResp (hid h) (Resolve pr)]
+     (map resps (snd (run c (sys_start n t0 h0 a0) [EvHtlc h; EvProcess 0 NoFault; EvDeliver 0 true; EvProcess 1 NoFault; EvDeliver 1 true; EvProcess 2 NoFault; EvDeliver 2 true]))).
+Proof. exact recover_done. Qed.
+
+(* the D4 image is covered: nothing is assumed about the attempt records [atts n] except that the NEW id is unused *)
+Theorem C09_interrupted_failed_is_marked_failed_and_paid : forall c n t0 h0 a0 h a t g p,
+  funded c h -> ds n = Some (DPending a t, g) -> pend_ids 0 (parts n) = [] -> done_pres (parts n) = [] ->
+  (mpp_ms c - (t0 - t) =? 0) = false -> a0 <> a -> mem_att a0 (atts n) = false ->
+  In [OResp (hid h) (Resolve p)]
+     (map resps (snd (run c (sys_start n t0 h0 a0) (recover_schedule h ++ pay_schedule_from 5 (length (parts n)) p)))).
+Proof. exact recover_pending. Qed.
+
+Theorem C09_aged_fails_once_then_free : forall c n t0 h0 a0 h a t g,
+  funded c h -> ds n = Some (DPending a t, g) -> pend_ids 0 (parts n) = [] -> done_pres (parts n) = [] ->
+  (mpp_ms c - (t0 - t) =? 0) = true ->
+  In [OResp (hid h) r_tramp_fail] (map resps (snd (run c (sys_start n t0 h0 a0) (recover_schedule h)))) /\
+  ds (nd (fst (run c (sys_start n t0 h0 a0) (recover_schedule h)))) = Some (DFree, g + 1) /\
+  parts (nd (fst (run c (sys_start n t0 h0 a0) (recover_schedule h)))) = parts n.
+Proof. exact recover_pending_aged. Qed.
+
+Theorem C09_aged_next_set_is_paid : forall c n t0 h0 a0 h h2 a t g p,
+  funded c h -> funded c h2 -> mpp_ms c <> 0 -> ds n = Some (DPending a t, g) -> pend_ids 0 (parts n) = [] -> done_pres (parts n) = [] ->
+  (mpp_ms c - (t0 - t) =? 0) = true -> a0 <> a -> mem_att a0 (atts n) = false ->
+  In [OResp (hid h2) (Resolve p)]
+     (map resps (snd (run c (sys_start n t0 h0 a0) (recover_schedule h ++ second_schedule h2 (length (parts n)) p)))).
+Proof. exact recover_aged_second_set. Qed.
+
+(* the write that wedged the pinned tree (D4): mark_failed's attempt write now is create-or-replace, which the node
+   accepts whether or not the attempt record exists; the must-replace of the pinned tree is refused when it does not *)
+Theorem C09_markfailed_write_never_refused : forall n a am b,
+  snd (node_exec n (QWriteAtt CreateOrReplace a true false am b) NoFault) = Some YUnit.
+Proof. intros. unfold node_exec. destruct (mem_att a (atts n)); reflexivity. Qed.
+Theorem C09_D4_pinned_write_refused : forall n a am b,
+  mem_att a (atts n) = false -> node_exec n (QWriteAtt MustReplace a true false am b) NoFault = (n, Some YErr).
+Proof. intros n a am b H. unfold node_exec. rewrite H. reflexivity. Qed.
+
+(* non-vacuity: the D4 image itself (Pending, no attempt record, no parts), probed with one funded HTLC *)
+Example C09_D4_image_recovers :
+  let c := {| mpp_ms := 60000; pol := {| fee_base := 0; fee_ppm := 0; pol_delta := 40 |}; cltv_delta := 6; retry_for := 60 |} in
+  let h := {| hid := 7; blob := [1]; deliver := 10; inv_amount := Some 10; amt := 10; total := 10; expiry := 1000; rel := 100%Z |} in
+  let n := {| ds := Some (DPending 3 1000, 0); atts := []; parts := []; payrun := 0 |} in
+  funded c h /\ node_ok n /\
+  map resps (snd (run c (sys_start n 2000 0 4) (recover_schedule h ++ pay_schedule_from 5 0 [9]))) =
+    [[]; []; []; []; []; []; []; []; []; []; []; []; []; []; []; []; []; []; []; [OResp 7 (Resolve [9])]].
+Proof.
+  split; [vm_compute; auto|]. split; [|vm_compute; reflexivity].
+  split; [reflexivity|]. split; [intros (i & st & Hi & _); destruct i; discriminate|intros g; discriminate].
+Qed.
